@@ -92,7 +92,11 @@ for item in spec["items"]:
 json.dump(out, open(sys.argv[2], "w"))
 """
 
-INTERPRETERS = {"python": [], "python -O": ["-O"], "python -OO": ["-OO"], "python -X dev": ["-X", "dev"]}
+INTERPRETERS = {"python": [], "python -O": ["-O"], "python -OO": ["-OO"], "python -X dev": ["-X", "dev"],
+                # bytes/str comparisons are errors; every warning is an error (pytest's filterwarnings = error of a downstream project);
+                # other string-hash seeds (set / dict-key-intersection orders differ between interpreters)
+                "python -bb": ["-bb"], "python -W error": ["-W", "error"], "PYTHONHASHSEED=1": ["@PYTHONHASHSEED=1"], "PYTHONHASHSEED=4": ["@PYTHONHASHSEED=4"],
+                "PYTHONHASHSEED=random": ["@PYTHONHASHSEED=random"]}
 FORMS = ["Path", "relative", "relative-dot", "slash", "url", "storage_options"]
 
 
@@ -101,6 +105,11 @@ def _child(flags, items, base, tag, ctx="plain"):
     json.dump({"items": items, "ctx": ctx}, open(spec, "w"))
     env = checklib.worker_env(os.path.join(base, f"xdg_{tag}"))
     env.pop("PYTHONOPTIMIZE", None)
+    for f in [f for f in flags if f.startswith("@")]:
+        k, v = f[1:].split("=", 1)
+        env[k] = v
+    flags = [f for f in flags if not f.startswith("@")]
+    # (-W ignore first: a later -W error on the command line overrides it)
     txt, _ = checklib.run_child([sys.executable, "-W", "ignore"] + flags + ["-c", CHILD, spec, out], env)
     if not os.path.exists(out):
         return None, txt[-600:]
@@ -164,7 +173,7 @@ def run(chk, owners):
             else:
                 others[cat] = others.get(cat, 0) + 1
     chk.traces(len(tasks))
-    chk.rule_extra.append("process settings: the same two products opened by fresh interpreters (plain, -O, -OO, -X dev) and with 6 spellings of the path argument "
+    chk.rule_extra.append("process settings: the same two products opened by fresh interpreters (plain, -O, -OO, -X dev, -bb, -W error, three other string-hash seeds) and with 6 spellings of the path argument "
                           "(Path object, relative, ./relative, trailing slash, file:// URL, storage_options) and from 3 calling contexts (inside a running asyncio "
                           "event loop, 600 frames deep, a worker thread, decimal precision 6, NumPy errors raised; records_per_chunk=1), complete trees and five selections per image compared with the plain one")
     if others:
